@@ -15,4 +15,5 @@ CSelS(z) == CU                \* coefficient of the first nilpotent variable: no
 CSelT(z) == CU
 CSeed(z, ds, dt) == z         \* perturbations have no effect in the plain domain
 Jets == FALSE
+CMath(f, z) == IF CDef(z) /\ z = CI(MathAt(f)[1]) THEN CI(MathAt(f)[2]) ELSE CU
 =============================================================================
